@@ -159,7 +159,12 @@ MALFORMED = ['\\begin{e}a {b} $c$', 'a {b \\x[c', '$a \\x{b}', '\\begin{e}\\begi
              '\\section{' * 400]
 DEEP_LEVELS = 1400
 DEEP_SOURCE = '{' * DEEP_LEVELS + 'a' + '}' * DEEP_LEVELS
-OPTIONS = [{}, {'skip_envs': ('note',)}, {'skip_envs': ('mycode', 'e')}, {'tolerance': 1}, {'skip_envs': ('note', 'mycode'), 'tolerance': 1}]
+OPTIONS = [{}, {'skip_envs': ('note',)}, {'skip_envs': ('mycode', 'e')}, {'tolerance': 1}, {'skip_envs': ('note', 'mycode'), 'tolerance': 1},
+           {'skip_envs': ('e',)}, {'skip_envs': ('mycode',)}, {'skip_envs': ('e', 'note')}]
+
+
+def fresh_options(o):
+    return {k: (tuple(''.join(list(x)) for x in v) if isinstance(v, tuple) else v) for k, v in o.items()}
 
 
 def object_ids(soup):
@@ -221,6 +226,7 @@ def run_isolation(sources, refs, ops, case, res=None):
     live = []      # (source index, options index, soup, snapshot text, snapshot canon, edited?)
     flags = set()
     limit0 = sys.getrecursionlimit()
+    optrefs = {}
 
     def deep_outcome():
         o = T.outcome(DEEP_SOURCE, 0)
@@ -283,10 +289,26 @@ def run_isolation(sources, refs, ops, case, res=None):
             si = a % len(sources)
             oi = 0 if code == 0 else b % len(OPTIONS)
             try:
-                soup = TexSoup(sources[si], **OPTIONS[oi])
-            except (EOFError, TypeError, AssertionError):
+                # option values are built afresh for every call (as a caller would), never shared constants
+                soup = TexSoup(sources[si], **fresh_options(OPTIONS[oi]))
+            except (EOFError, TypeError, AssertionError) as e:
+                if oi and (si, oi) in optrefs and optrefs[(si, oi)] != ('raise', type(e).__name__):
+                    raise H.Violation('C17:isolation:option-parse-differs', case,
+                                      'step %d: parsing %r with %r raises %r, an earlier equal call did not' % (k, sources[si][:80], OPTIONS[oi], e))
                 continue
-            live.append([si, oi, soup, str(soup), O.canon_tree(soup, skip=OPTIONS[oi].get('skip_envs', ())), False])
+            can = O.canon_tree(soup, skip=OPTIONS[oi].get('skip_envs', ()))
+            if oi:
+                # the same source with equal option VALUES held in long-lived objects gives the reference
+                if (si, oi) not in optrefs:
+                    try:
+                        optrefs[(si, oi)] = O.canon_tree(TexSoup(sources[si], **OPTIONS[oi]), skip=OPTIONS[oi].get('skip_envs', ()))
+                    except (EOFError, TypeError, AssertionError) as e:
+                        optrefs[(si, oi)] = ('raise', type(e).__name__)
+                if can != optrefs[(si, oi)]:
+                    raise H.Violation('C17:isolation:option-parse-differs', case,
+                                      'step %d: parsing %r with %r differs from the same call made with equal option values: %s' % (
+                                          k, sources[si][:80], OPTIONS[oi], O.first_diff(can, optrefs[(si, oi)])))
+            live.append([si, oi, soup, str(soup), can, False])
             if oi:
                 flags.add('option-carrying-parse')
         elif code in (2, 3) and live:
@@ -395,20 +417,7 @@ def stage_hashseeds(ctx, shard):
     return res
 
 
-BIG_UNIT = '\\section{S%d} text $x_{%d}$ and \\textbf{b%d} %% c\n\\begin{itemize}\\item a%d \\item[l] b\\end{itemize}\n\n'
-
-
-def big_source(size):
-    """A well-formed document of exactly `size` characters (buffer / block sizes of readers are powers of two)."""
-    parts, n, k = [], 0, 0
-    while True:
-        u = BIG_UNIT % (k, k, k, k)
-        if n + len(u) > size:
-            break
-        parts.append(u)
-        n += len(u)
-        k += 1
-    return ''.join(parts) + 'x' * (size - n)
+big_source = D.big_source
 
 
 def check_bigform(size, form, tmpdir):
